@@ -21,7 +21,23 @@ var errC02Stop = errors.New("c02 stop")
 // c02Check decodes in with the library and with the reference parser and
 // compares. It returns (key, detail) of the first disagreement.
 func c02Check(in []byte, m *stun.Message) (outcome, key, detail string) {
-	if p := catch(func() { outcome, key, detail = c02Check1(in, m) }); p != "" {
+	if p := catch(func() {
+		// a fresh Message, then a Message that has just held another message (the read loops of the library
+		// reuse one Message without Reset): what the earlier message left behind must not show
+		*m = stun.Message{}
+		outcome, key, detail = c02Check1(in, m)
+		if key == "" {
+			m.Raw = append(m.Raw[:0:0], c01Big...)
+			if err := m.Decode(); err != nil {
+				key, detail = "harness", "priming message does not decode"
+				return
+			}
+			var k2, d2 string
+			if _, k2, d2 = c02Check1(in, m); k2 != "" {
+				key, detail = k2+"/reused-message", "after the Message held another message: "+d2
+			}
+		}
+	}); p != "" {
 		return "", "panic", fmt.Sprintf("%s on %x", p, clip(in))
 	}
 	return
